@@ -14,7 +14,7 @@ from .core import AnchorError, Unsupported
 from .e2_eval import is_unknown, need
 from .sem import module_funcs, place
 from .c10_sem import (XSem, Facts, Degrees, Stencil, ANY, truth, same, app, head, sym_of, const_of, walk, apps, peel, depends, conj, wrap, devectorise,
-                      module_consts, str_parts, single_atom, TRUE, FALSE, NONE)
+                      module_consts, str_parts, single_atom, untuple, TRUE, FALSE, NONE)
 
 CYC = "pyyeti/cyclecount.py"
 LOC = "pyyeti/locate.py"
@@ -179,7 +179,11 @@ def r5_binify_guards(ctx):
             continue
         edges, verdict = S.deref(ret[0]), S.deref(ret[1])
         ok = same(edges, S0.E("bins"))
-        ctx.check(ok, f"getbins (right={right}): explicit bins are returned as given", S.ret_node(), None if ok else short(edges), nontrivial=False)
+        if not ok and edges is not None and not is_unknown(edges) and not isinstance(edges, tuple) and depends(edges, "bins"):
+            # derived from the given bins in a way this rule does not read (sorted, converted, ...): not a verdict
+            ctx.error(f"getbins (right={right}): explicit bins are returned as given", S.ret_node(), short(edges))
+        else:
+            ctx.check(ok, f"getbins (right={right}): explicit bins are returned as given", S.ret_node(), None if ok else short(edges), nontrivial=False)
         tab = {}
         for pl, b0 in (("below", 1), ("on", 0), ("above", -1)):          # mn = 0 relative to the first edge b0
             for ph, bn in (("below", 11), ("on", 10), ("above", 9)):      # mx = 10 relative to the last edge bn
@@ -229,11 +233,17 @@ def r5_binify_guards(ctx):
         pos, kw = call_args(u)
         la = place(pos, kw, ["start", "stop", "num"])
         k = 0 if right else -1
-        want = S0.E(f"X[{k}] {'-' if right else '+'} 0.001 * (mx - mn)", X=F.sym(arr))
+        want = [S0.E(f"X[{k}] {'-' if right else '+'} 0.001 * (mx - mn)", X=F.sym(arr)),
+                S0.E(f"{'mn -' if right else 'mx +'} 0.001 * (mx - mn)")]          # np.linspace(a, b, n)[0] is a, [-1] is b - exactly
         nedges = la.get("num")
+        counts = [S0.E(t) for t in ("int(bins[0]) + 1", "bins[0] + 1", "int(bins) + 1", "bins + 1", "int(bins.item()) + 1", "bins.item() + 1")]
+        if nedges is None or not any(same(nedges, w) for w in counts):
+            if nedges is not None and not is_unknown(nedges) and not isinstance(nedges, tuple) and depends(nedges, "bins") and apps(nedges, "call:"):
+                oks.append(None)        # the number of edges is taken from `bins` through a conversion this rule does not read
+                continue
         ok = same(la.get("start"), S0.E("mn")) and same(la.get("stop"), S0.E("mx")) and nedges is not None \
-            and (same(nedges, S0.E("int(bins[0]) + 1")) or same(nedges, S0.E("bins[0] + 1"))) \
-            and truth(ret[1], None) is False and not cells[0][4]["guard"] and const_of(cells[0][1]) == k and same(cells[0][2], want)
+            and any(same(nedges, w) for w in counts) \
+            and truth(ret[1], None) is False and not cells[0][4]["guard"] and const_of(cells[0][1]) == k and any(same(cells[0][2], w) for w in want)
         oks.append(ok)
         if not ok:
             why.append({"right": right, "edges": short(init), "store": [short(cells[0][1]), short(cells[0][2])], "verdict": short(ret[1])})
@@ -357,14 +367,19 @@ def r5_binify_guards(ctx):
                     ok = all(t is True for t, _ in tab.values())
                     ctx.check(ok, "_binify: the unguarded arm (used when getbins proved every value in bounds) adds every count", cell[3], None if ok else short(g))
             S = acc[True][0]
-            z = [c for c in S.calls("np.zeros") if c[1] and isinstance(c[1][0], tuple) and len(c[1][0]) == 2]
+            al = S.tr.allocs.get(acc[True][1])
             ini = S.init(acc[True][1])
-            def f64(c):
-                d = placed(c, ["shape", "dtype"]).get("dtype")
-                return d is None or sym_of(d) in ("np.float64", "float", "np.double", "'float64'", "'f8'")
-            ok = len(z) >= 1 and const_of(ini) == 0 and any(same(c[1][0][0], Sb0.E(f"len({roles[True]['mean']}) - 1")) and
-                                                            same(c[1][0][1], Sb0.E(f"len({roles[True]['amp']}) - 1")) and f64(c) for c in z)
-            ctx.check(ok, "_binify: the table has one row per mean bin and one column per amplitude bin (double precision counts)", fb, None if ok else [short(c[1]) for c in z])
+            msg = "_binify: the table has one row per mean bin and one column per amplitude bin (double precision counts)"
+            a = place(al[1], al[2], ["shape", "fill_value", "dtype"] if al and al[0] == "np.full" else ["shape", "dtype"]) if al else {}
+            shp = untuple(a.get("shape")) if al else None
+            if al is None or al[0] not in ("np.zeros", "np.full", "np.empty", "np.ones") or not isinstance(shp, tuple) or len(shp) != 2:
+                ctx.error(msg, fb, f"the returned table is not created by np.zeros((rows, columns)): {short(ini)}")
+            else:
+                d = a.get("dtype")
+                f64 = d is None or sym_of(d) in ("np.float64", "float", "np.double", "'float64'", "'f8'", "'float'", "'d'", "np.float_")
+                ok = al[0] in ("np.zeros", "np.full") and const_of(ini) == 0 and f64 and same(shp[0], Sb0.E(f"len({roles[True]['mean']}) - 1")) \
+                    and same(shp[1], Sb0.E(f"len({roles[True]['amp']}) - 1"))
+                ctx.check(ok, msg, fb, None if ok else {"created by": al[0], "shape": [short(x) for x in shp], "dtype": short(d), "initial value": short(ini)})
     # ---- binify
     bf = ctx.src.func(CYC, "binify")
     pf = params(bf)
@@ -406,6 +421,7 @@ def r5_binify_guards(ctx):
     G = {}
     bad = None
     undecided = False
+    unread = False
     if len(gb) != 2 or len(bn) != 1:
         bad = f"{len(gb)} getbins calls, {len(bn)} _binify calls"
     else:
@@ -415,10 +431,21 @@ def r5_binify_guards(ctx):
             col = {"amp": 0, "mean": 1}.get(which)
             if which is None or which in G:
                 bad = f"getbins call with bins = {short(a.get('bins'))}"
+                bv = a.get("bins")
+                if which is None and bv is not None and not is_unknown(bv) and not isinstance(bv, tuple) and (depends(bv, "ampbins") != depends(bv, "meanbins")):
+                    unread = True       # derived from one of the two specifications in a way this rule does not read
                 break
             hi, lo = Sf0.E(f"np.max(rf[:, {col}])"), Sf0.E(f"np.min(rf[:, {col}])")
             ext = (same(a.get("mx"), hi) and same(a.get("mn"), lo)) or (same(a.get("mx"), lo) and same(a.get("mn"), hi))
-            if not ext or not same(a.get("right"), Sf0.E("right")) or not same(a.get("check_bounds"), Sf0.E("check_bounds")):
+            cb_ok = same(a.get("check_bounds"), Sf0.E("check_bounds")) or truth(a.get("check_bounds"), S.ev.facts) is True      # evaluated with check_bounds true
+            if not ext:
+                # the extremes of another column, or of no column of the table at all: wrong; of this column in an unread spelling: not decided
+                mine, other = Sf0.E(f"rf[:, {col}]"), Sf0.E(f"rf[:, {1 - col}]")
+                ex = [x for x in (a.get("mx"), a.get("mn")) if x is not None and not is_unknown(x) and not isinstance(x, tuple)]
+                if len(ex) == 2 and all(any(same(y, mine) for y in walk(x)) and not any(same(y, other) for y in walk(x)) for x in ex) \
+                        and not all(head(x) in ("call:np.max", "call:np.min") for x in ex):
+                    unread = True
+            if not ext or not same(a.get("right"), Sf0.E("right")) or not cb_ok:
                 bad = f"getbins({which}): {dict((k, short(v, 80)) for k, v in a.items())}"
                 break
             G[which] = call_value(c)
@@ -440,16 +467,21 @@ def r5_binify_guards(ctx):
                         bad = {"guard argument": short(ens), "amplitude out": oa, "mean out": om, "guard": t}
         else:
             bad = {k: short(v, 100) for k, v in a.items()}
-    if len(gb) != 2 or len(bn) != 1 or undecided:
+    if len(gb) != 2 or len(bn) != 1 or undecided or unread:
         ctx.error("binify: the index guard is switched on exactly when getbins reports a value out of bounds (amplitude or mean)", bf, bad)
     else:
         ctx.check(bad is None, "binify: the index guard is switched on exactly when getbins reports a value out of bounds (amplitude or mean)", bf, bad)
     S2, gb2, bn2 = res[False]
+    # with check_bounds off nothing is promised about values outside the bins (documented: the caller's responsibility); keeping the index guard on
+    # would be safe as well, so "the unguarded arm is used" is not a necessary condition - only that the flag handed over is a definite value
     ok = len(bn2) == 1 and len(gb2) == 2
     if ok:
         a = placed(bn2[0], pb)
-        ok = truth(a.get(pb[4]), None) is False
-    ctx.check(ok, "binify: without check_bounds the unguarded arm is used (caller's responsibility)", bf, nontrivial=False)
+        ok = pb[4] not in a or truth(a.get(pb[4]), None) is not None
+    if ok:
+        ctx.ok("binify: without check_bounds the index guard is a definite flag (off, or safely on)", bf, nontrivial=False)
+    else:
+        ctx.error("binify: without check_bounds the index guard is a definite flag (off, or safely on)", bf)
     dflt = dict(zip(pf[::-1], (bf.args.defaults or [])[::-1]))
     d = dflt.get("check_bounds")
     ctx.check(isinstance(d, ast.Constant) and d.value is True, "binify: bounds are checked by default", bf, ast.unparse(d) if d is not None else None)
@@ -460,12 +492,21 @@ def r5_binify_guards(ctx):
     ok = len(cb) == 1
     if not cb:
         ctx.error("sigcount never overrides check_bounds", sc, "no call of binify")
+    unread = False
     if ok:
         a = placed(cb[0], pf)
         ok = all(same(a.get(n), Ss.E(n)) for n in ("ampbins", "meanbins", "right")) and ("check_bounds" not in a or truth(a["check_bounds"], None) is True)
         u = app(a.get("rf"), "call:rainflow")
-        ok = ok and u is not None and same(call_args(u)[0][0], Ss.E("sig[findap(sig)]"))
-    if cb:
+        fed = u is not None and bool(call_args(u)[0]) and same(call_args(u)[0][0], Ss.E("sig[findap(sig)]"))
+        if ok and not fed:
+            # the cycle table is made in a way this rule does not read (it must come from the reversals of the signal): wrong only when it is plainly
+            # counted on something else than the selected samples
+            rfv = a.get("rf")
+            unread = rfv is None or is_unknown(rfv) or isinstance(rfv, tuple) or (bool(apps(rfv, "call:findap")) and depends(rfv, "sig"))
+        ok = ok and fed
+    if cb and unread:
+        ctx.error("sigcount never overrides check_bounds", sc, {k: short(v, 80) for k, v in placed(cb[0], pf).items()})
+    elif cb:
         ctx.check(ok, "sigcount never overrides check_bounds", sc, None if ok else {k: short(v, 80) for k, v in placed(cb[0], pf).items()})
     # labels
     if bad is None:
@@ -523,14 +564,65 @@ def _strict(cmpv, d, t):
     for k, x in (("below", Fraction(1, 2)), ("on", 1), ("above", 2)):
         f = Facts()
         try:
-            f.num_set(d, x)
-            f.num_set(t, 1)
+            if single_atom(t) is not None:
+                f.num_set(t, 1)
+                tv = Fraction(1)
+            else:
+                # abs(tol) * largest difference, ...: every factor 1
+                for a_ in sorted(need(t).n.atoms() | need(t).d.atoms()):
+                    f.nums[a_] = Fraction(1)
+                tv = f.num(t)
+                if tv is None or tv <= 0:
+                    return None
+            f.num_set(d, x * tv)
         except Unsupported:
             return None
         res[k] = truth(cmpv, f)
     if any(v is None for v in res.values()):
         return None
     return res
+
+
+def _tolerance_kind(t, tol, D):
+    """the scaled tolerance as a function of the parameter `tol` and the vector of differences D:
+    'ok'    |tol| * max|D|   (abs(tol * P), abs(tol) * P, abs(tol) * abs(P) with P the largest absolute difference in any spelling),
+    'other' recognisably something else (another statistic of D, or the sign of tol kept), None not recognised"""
+    if t is None or is_unknown(t) or isinstance(t, (tuple, str)):
+        return None
+    T = F.sym(tol)
+    cands = []
+    for x in walk(t):
+        u = app(x)
+        if u is not None and (u[0] in REDUCERS or u[0] in ("call:max", "call:np.maximum", "call:np.fmax", "call:np.linalg.norm", "call:linalg.norm", "call:norm")) \
+                and any(same(y, D) for y in walk(x)):
+            cands.append(x)
+    # the outermost statistic of D that t is built from
+    tops = [x for x in cands if not any(x is not y and any(same(x, z) for z in walk(y) if z is not y) for y in cands)]
+    if len(tops) != 1:
+        return None
+    P = tops[0]
+    kind = _extreme_kind(P, D)
+    if kind is None:
+        return None
+    try:
+        forms = [F.fn("abs", T * P), F.fn("abs", T) * P, F.fn("abs", T) * F.fn("abs", P)]
+        signed = [T * P, T * F.fn("abs", P)]
+    except Unsupported:
+        return None
+    if any(same(t, w) for w in forms):
+        return "ok" if kind == "maxabs" else "other"
+    if any(same(t, w) for w in signed):
+        return "other"
+    # some other function of the tolerance and that statistic alone (tol / P, tol + P, ...): recognisably not |tol| * max|D|
+    try:
+        mp = {single_atom(P): F.sym("<P>")}
+        rest = (F._subs_poly(t.n, mp) / F._subs_poly(t.d, mp)) if single_atom(P) is not None else None
+    except Exception:  # noqa
+        rest = None
+    if rest is not None and not any(same(y, D) for y in walk(rest)) and all(sym_of(x) in (tol, "<P>") for x in walk(rest) if sym_of(x) is not None) \
+            and all(nm == "abs" for nm, _, _ in apps(rest, "")) and depends(rest, tol) and depends(rest, "<P>"):
+        return "other"
+    return None
 
 
 def _all_values(S):
@@ -567,7 +659,9 @@ def r6_tolerance_strictness(ctx):
             for text in (f"{pq[0]}.size", f"len({pq[0]})"):
                 f.num_set(S0.E(text), 1000)
             S = XSem(ctx, fn, facts=f, consts=consts, inline=inl)
-            loops = bool(S.tr.loops) or any(t[3] == "while" for t in S.tr.tests)
+            inside = {id(n) for n in ast.walk(lf)}              # a find_unique written with a loop does not make the caller the loop variant
+            loops = any(id(l[3]) not in inside for l in S.tr.loops) or any(t[3] == "while" and id(t[1]) not in inside for t in S.tr.tests) \
+                or any(isinstance(n, (ast.For, ast.While)) for n in ast.walk(fn))
             variants.append((q, fn, S, pq, loops, S0))
             sites.append(("findap", fn, S, pq))
     n = 0
@@ -576,7 +670,7 @@ def r6_tolerance_strictness(ctx):
             raise AnchorError(f"{name}(y, tol)")
         _bound(ctx, S, name, fn)
         cm = _tol_cmps(_all_values(S), pp[1])
-        want_t = [S.E(f"abs({pp[1]} * np.max(abs(np.diff({pp[0]}))))"), S.E(f"abs({pp[1]}) * np.max(abs(np.diff({pp[0]})))")]
+        D = S.E(f"np.diff({pp[0]})")
         tol_ok = []
         for cmpv, d, t in cm:
             n += 1
@@ -588,13 +682,20 @@ def r6_tolerance_strictness(ctx):
             ctx.check(ok, f"{name}: `{short(S.E('D > T', D=F.sym('|difference|'), T=F.sym('tolerance')) if ok else cmpv, 120)}` - a difference counts only when strictly greater than the tolerance "
                           "(all peak-picking variants must agree; `>=` would keep exact repeats when tol = 0 and plateaus would then hide reversals)", fn,
                       None if ok else {"comparison": short(cmpv), "truth for |difference| below / on / above the tolerance": r}, key=None)
-            tol_ok.append(any(same(t, w) for w in want_t))
-        if cm:
-            ok = all(tol_ok)
+            tol_ok.append(_tolerance_kind(t, pp[1], D))
+        if cm and "other" not in tol_ok and None in tol_ok:
+            ctx.error(f"{name}: the tolerance is relative to the largest sample-to-sample difference", fn,
+                      {"not recognised as |tol| * max|diff(y)| nor as something else": [short(t) for (_, _, t), k in zip(cm, tol_ok) if k is None]})
+        elif cm:
+            ok = all(k == "ok" for k in tol_ok)
             ctx.check(ok, f"{name}: the tolerance is relative to the largest sample-to-sample difference", fn, None if ok else [short(t) for _, _, t in cm])
-    ctx.check(n >= 4, f"tolerance rule bound to {n} comparisons in find_unique and findap", LOC + ":1", nontrivial=False)
+    if n >= 4:
+        ctx.ok(f"tolerance rule bound to {n} comparisons in find_unique and findap", LOC + ":1", nontrivial=False)
+    else:
+        ctx.error(f"tolerance rule bound to {n} comparisons in find_unique and findap (4 expected: the rule does not see the comparisons it is about)", LOC + ":1")
     # find_unique itself: the mask is (True, |diff| > tolerance)
     u = app(fu, "hcat") if fu is not None and not is_unknown(fu) and not isinstance(fu, tuple) else None
+    und = False
     ok = u is not None and len(u[1]) == 2 and truth(u[1][0], None) is True
     if u is None or len(u[1]) != 2:
         ctx.error("find_unique: the first sample is unique; a later sample is unique exactly when it differs from its predecessor by more than the tolerance", lf,
@@ -604,8 +705,13 @@ def r6_tolerance_strictness(ctx):
         cm = _tol_cmps([mask], pl[1])
         ok = len(cm) == 1 and same(cm[0][1], Sfu.E(f"abs(np.diff({pl[0]}))"))
         r = _strict(mask, cm[0][1], cm[0][2]) if ok else None
+        if ok and r is None:
+            und = True
         ok = ok and r is not None and r["above"] is True and r["on"] is False and r["below"] is False
-    if u is not None and len(u[1]) == 2:
+    if u is not None and len(u[1]) == 2 and und:
+        ctx.error("find_unique: the first sample is unique; a later sample is unique exactly when it differs from its predecessor by more than the tolerance", lf,
+                  "the comparison with the tolerance could not be evaluated: " + short(fu))
+    elif u is not None and len(u[1]) == 2:
         ctx.check(ok, "find_unique: the first sample is unique; a later sample is unique exactly when it differs from its predecessor by more than the tolerance", lf,
                   None if ok else short(fu))
     # ---- the vectorised (numpy) variant of findap
@@ -657,7 +763,15 @@ def _masks(S, v, depth=3):
             ini = fl[1][1]
         t0 = truth(ini, None) if ini is not None and not isinstance(ini, tuple) else None
         cs = S.cells(s)
-        if t0 is None or len(cs) != 1 or cs[0][4]["guard"] or cs[0][4]["loops"] or cs[0][4].get("aug") or is_unknown(cs[0][1]) or is_unknown(cs[0][2]) or isinstance(cs[0][2], tuple):
+        if t0 is None or len(cs) != 1 or cs[0][4]["guard"] or cs[0][4].get("aug") or is_unknown(cs[0][1]) or is_unknown(cs[0][2]) or isinstance(cs[0][2], tuple):
+            continue
+        if len(cs[0][4]["loops"]) == 1:
+            # pv = np.ones(n, bool); for k in range(1, n): pv[k] = f(y[k], y[k - 1])   is   pv[1:] = f(y[1:], y[:-1])
+            vec = _loop_vector(S, s, cs[0])
+            if vec is not None:
+                mp[s] = F.fn("hcat", F.const(1 if t0 else 0), need(_masks(S, vec, depth - 1)))
+            continue
+        if cs[0][4]["loops"]:
             continue
         if same(cs[0][1], F.fn("slice", F.const(1), NONE, NONE)):
             mp[s] = F.fn("hcat", F.const(1 if t0 else 0), need(_masks(S, cs[0][2], depth - 1)))
@@ -667,6 +781,70 @@ def _masks(S, v, depth=3):
         return v.subs(mp)
     except Unsupported:
         return v
+
+
+def mk_not_(v):
+    from .c10_sem import mk_not
+    try:
+        u = app(v, "invert")
+        if u is not None and not isinstance(u[1][0], str):
+            return u[1][0]              # ~~m is m
+        return mk_not(v)
+    except Unsupported:
+        return None
+
+
+def _positions(S, ix, arr):
+    """the boolean mask a store index selects with: the mask itself, np.nonzero(mask)[0] / np.flatnonzero(mask) / np.where(mask)[0], or the array
+    being stored into when it was created as a copy of a mask (`PV = u.copy(); PV[PV] = pv`)"""
+    if ix is None or is_unknown(ix) or isinstance(ix, (tuple, str)):
+        return None
+    if arr is not None and sym_of(ix) == arr:
+        ix = S.init(arr)
+        if ix is None or is_unknown(ix) or isinstance(ix, tuple):
+            return None
+    u = app(ix, "idx")
+    if u is not None and len(u[1]) == 2 and not isinstance(u[1][0], str) and const_of(u[1][1]) == 0:
+        w = app(u[1][0])
+        if w is not None and w[0] in ("call:np.nonzero", "call:np.where") and len(w[1]) == 1 and not isinstance(w[1][0], str):
+            ix = w[1][0]
+    w = app(ix, "call:np.flatnonzero")
+    if w is not None and len(w[1]) == 1 and not isinstance(w[1][0], str):
+        ix = w[1][0]
+    return _masks(S, ix)
+
+
+def _loop_vector(S, arr, cell):
+    """the store  arr[k] = f(X[k + c], ...)  inside  for k in range(1, len(arr))  as the vector stored into arr[1:]: every X[k + c] becomes the
+    slice X[1 + c : len(X) + c] (X as long as arr); None when the store is not of that form"""
+    var, dom = cell[4]["loops"][0]
+    r = app(dom, "range") if not is_unknown(dom) else None
+    if r is None or len(r[1]) != 2 or const_of(r[1][0]) != 1 or sym_of(cell[1]) != var:
+        return None
+    hi = r[1][1]
+    if not any(same(hi, ln) for ln in S.ev._lengths(F.sym(arr))):
+        return None
+    elt = cell[2]
+    mp = {}
+    for _, a, x in apps(elt, "idx"):
+        if len(a) != 2 or isinstance(a[0], str) or isinstance(a[1], str) or not depends(a[1], var):
+            continue
+        if depends(a[0], var):
+            return None
+        try:
+            c = const_of(a[1] - F.sym(var))
+        except Unsupported:
+            c = None
+        if c is None or c.denominator != 1 or not (-1 <= c <= 0) or not any(same(hi, ln) for ln in S.ev._lengths(a[0])):
+            return None
+        mp[single_atom(x)] = S.ev.mk_idx(a[0], F.fn("slice", F.const(1 + c) if 1 + c else NONE, F.const(c) if c else NONE, NONE))
+    if not mp:
+        return None
+    try:
+        out = F._subs_poly(elt.n, mp) / F._subs_poly(elt.d, mp)
+    except Unsupported:
+        return None
+    return None if depends(out, var) else out
 
 
 def _retained_mask(S, allu, U, strict=True):
@@ -679,18 +857,34 @@ def _retained_mask(S, allu, U, strict=True):
     mask = arr
     # the stores into the returned array itself (XSem.cells also lists what a stored row was filled with: not wanted for a masked store)
     cells = [(c[0], c[1], c[2], c[3], x) for c, x in zip(S.tr.cells, S.tr.cellx) if c[0] == arr]
-    scattered = len(cells) == 1 and sym_of(cells[0][2]) is not None and bool(S.cells(sym_of(cells[0][2])))
+    src = None
+    if len(cells) == 1 and not is_unknown(cells[0][2]) and not isinstance(cells[0][2], tuple):
+        b_, ix_ = peel(cells[0][2])
+        if sym_of(b_) is not None and all(app(i_, "slice") is not None for i_ in ix_):
+            src = sym_of(b_)              # the retained-samples mask, or a leading / trailing part of it
+    scattered = src is not None and bool(S.cells(src))
     if scattered or not allu:
         # the mask of the retained samples is expanded to full size: zeros, then the mask stored at the retained positions
         # created all False, or as a copy of the retained-samples mask itself (False exactly where nothing is stored)
         ini0 = S.init(arr)
-        blank = const_of(ini0) == 0 or (U is not None and ini0 is not None and not isinstance(ini0, tuple) and same(_masks(S, ini0), U))
-        ok = scattered and blank and not cells[0][4]["guard"] and U is not None and same(_masks(S, cells[0][1]), U)
+        text = f"expansion to full size: {[(short(c[1], 80), short(c[2], 80)) for c in cells]} into an array created as {short(ini0, 80)}"
         if not strict:
-            ok = scattered          # the twin evaluation (conversions visible): what is scattered where was checked on the plain one
-        if not ok:
-            return f"scatter: expansion to full size: {[(short(c[1], 80), short(c[2], 80)) for c in cells]}"
-        mask = sym_of(cells[0][2])
+            # the twin evaluation (conversions visible): what is scattered where was checked on the plain one
+            if not scattered:
+                return "scatter? " + text
+        elif not scattered:
+            # nothing is stored into the returned array and it is a constant: definitely not the retained samples' mask; anything else: not read
+            return ("scatter: " if not cells and const_of(ini0) is not None else "scatter? ") + text
+        else:
+            ini_m = _masks(S, ini0) if ini0 is not None and not isinstance(ini0, tuple) and not is_unknown(ini0) else None
+            blank = True if const_of(ini0) == 0 or (U is not None and same(ini_m, U)) else (False if const_of(ini0) is not None else None)
+            where = _positions(S, cells[0][1], arr)
+            at = True if U is not None and same(where, U) else (False if U is not None and where is not None and same(mk_not_(where), U) else None)
+            if blank is False or at is False:
+                return "scatter: " + text            # created all True, or stored at the removed positions
+            if blank is None or at is None or cells[0][4]["guard"] or U is None:
+                return "scatter? " + text
+        mask = src
     cells = S.cells(mask)
     ini = S.init(mask)
     inner = [c for c in cells if same(c[1], F.fn("slice", F.const(1), F.const(-1), NONE))]
@@ -789,6 +983,10 @@ def _findap_numpy(ctx, variant, fu, pl, consts, table, lf):
             scatter_ok = False
             probs.append(m[9:])
             continue
+        if isinstance(m, str) and m.startswith("scatter? "):
+            shape_ok = False
+            probs.append(f"all-unique={allu}: " + m[9:])
+            continue
         if isinstance(m, str):
             shape_ok = False
             probs.append(f"all-unique={allu}: {m}")
@@ -845,8 +1043,24 @@ def _findap_numpy(ctx, variant, fu, pl, consts, table, lf):
         if allu:
             want_yu.append(y)           # nothing was removed: y[U] is y
         if not any(same(m["YUr"], w) for w in want_yu):
-            ret_ok = False
-            probs.append(f"all-unique={allu}: samples worked on: {short(YU)}")
+            # the same samples selected in another spelling: y[np.nonzero(u)[0]], np.compress(u, y), np.extract(u, y)
+            sel = None
+            yx = app(m["YUr"])
+            if yx is not None and yx[0] == "idx" and len(yx[1]) == 2 and not isinstance(yx[1][0], str) and same(yx[1][0], y):
+                sel = _positions(S, yx[1][1], None)
+            elif yx is not None and yx[0] == "call:np.take" and len(yx[1]) == 2 and not any(isinstance(a, str) for a in yx[1]) and same(yx[1][0], y):
+                sel = _positions(S, yx[1][1], None)
+            elif yx is not None and yx[0] in ("call:np.compress", "call:np.extract") and len(yx[1]) == 2 and not any(isinstance(a, str) for a in yx[1]) and same(yx[1][1], y):
+                sel = _positions(S, yx[1][0], None)
+            if sel is not None and U is not None and same(sel, U):
+                pass
+            elif sel is None and not same(m["YUr"], y) and not is_unknown(m["YUr"]) and depends(m["YUr"], pq[0]):
+                shape_ok = False            # derived from the signal in a way this rule does not read
+                probs.append(f"all-unique={allu}: samples worked on (not read): {short(YU)}")
+                continue
+            else:
+                ret_ok = False
+                probs.append(f"all-unique={allu}: samples worked on: {short(YU)}")
         if st is not None:
             stencils.append((allu, st, twin[allu], mt["inner"]))
         elif not same(Sg, S.E("np.sign(V[1:] - V[:-1])", V=YU)):
@@ -927,7 +1141,21 @@ def _fde(ctx, absacce, plain=True):
     if plain:
         truths += [(E("winends == 'auto'"), False), (E("winends is None"), True), (E("hpfilter is None"), True), (E("detrend"), False),
                    (E("rolloff == 'prefilter'"), False)]
-    preds = [_serial_pred, _resp_pred("absacce" if absacce else "pvelo")]
+    def serial_ncpu(v):
+        """tests on the number of worker processes srs._process_parallel returns (`ncpu > 1`, `ncpu == 1`): one process in the serial regime"""
+        u = app(v)
+        if u is None or not u[0].startswith("cmp:") or len(u[1]) != 2 or any(isinstance(x, str) for x in u[1]):
+            return None
+        for k in (0, 1):
+            w = app(u[1][k], "idx")
+            if w is not None and not isinstance(w[1][0], str) and head(w[1][0]) in ("call:srs._process_parallel", "call:_process_parallel") and const_of(w[1][1]) == 1 \
+                    and const_of(u[1][1 - k]) is not None:
+                fx = Facts()
+                fx.num_set(u[1][k], 1)
+                return truth(v, fx)
+        return None
+
+    preds = [_serial_pred, serial_ncpu, _resp_pred("absacce" if absacce else "pvelo")]
     if plain:
         def noresample(v):
             u = app(v, "cmp:Lt")
@@ -938,13 +1166,25 @@ def _fde(ctx, absacce, plain=True):
     f = Facts(truths=truths, preds=preds)
     for text in ("sig.ndim", "freq.ndim"):
         f.num_set(E(text), 1)
-    S = XSem(ctx, fn, facts=f, consts=consts, inline={k: v for k, v in table.items() if k not in ("fdepsd", "_dofde", "_mk_par_globals")})
+    # the regime is selected by *binding* the parameter to the regime's literal: every way of testing it (==, !=, in, a table look-up,
+    # a character of it) then evaluates; the predicates above stay for code that re-binds the name
+    S = XSem(ctx, fn, facts=f, consts=consts, inline={k: v for k, v in table.items() if k not in ("fdepsd", "_dofde", "_mk_par_globals")},
+             env={"resp": F.sym(repr("absacce" if absacce else "pvelo"))})
     out = {}
     ns = S.calls("SimpleNamespace", "types.SimpleNamespace")
     if len(ns) != 1 or len(S.returns()) != 1 or S.tr.raises:
         raise AnchorError("fdepsd: one return of SimpleNamespace(...)")
     for k, v in ns[0][2].items():
         out[k] = v
+    rn = S.returns()[0][1]
+    if isinstance(getattr(rn, "value", None), ast.Name):
+        # res = SimpleNamespace(...); res.psd = Gpsd; ...; return res
+        pre = rn.value.id + "."
+        for k, v in S.ev.env.items():
+            if k.startswith(pre) and k[len(pre):].isidentifier():
+                out[k[len(pre):]] = v
+    if "_kwargs" in out or any(k not in out for k in ("psd", "peakamp", "di_sig", "di_test", "var_test", "bincount", "count", "binamps", "srs")):
+        raise Unsupported(f"fdepsd: the fields of the returned namespace are not all visible (found {sorted(k for k in out if k != '_kwargs')})")
     # an output that still carries an undecided alternative (a test this rule's regime facts do not decide - e.g. the response type tested in a
     # way that is not a comparison with a literal) cannot be compared with anything: not lowered, never a verdict
     for k in ("psd", "peakamp", "di_sig", "di_test", "var_test", "bincount", "count", "binamps", "srs"):
@@ -1010,8 +1250,29 @@ def _frame(S, v):
     return None
 
 
+def _rowsum(v):
+    """the summand X of a row-wise sum:  np.sum(X, axis=1) / X.sum(axis=-1) / np.sum(X, 1) / np.einsum("ij,ij->i", A, B) (X = A * B)"""
+    u = app(v)
+    if u is None or any(isinstance(a, str) for a in u[1]):
+        return None
+    pos, kw = call_args(u)
+    if u[0] == "call:np.sum" and pos:
+        ax = pos[1] if len(pos) == 2 else kw.get("axis")
+        if ax is not None and const_of(ax) in (1, -1) and len(pos) <= 2 and set(kw) <= {"axis"}:
+            return pos[0]
+    if u[0] == "call:np.einsum" and len(pos) == 3 and not kw:
+        sp = str_parts(pos[0])
+        if sp is not None and len(sp) == 1 and isinstance(sp[0], str) and sp[0].replace(" ", "") in ("ij,ij->i", "ab,ab->a", "jk,jk->j"):
+            try:
+                return need(pos[1]) * need(pos[2])
+            except Unsupported:
+                return None
+    return None
+
+
 def _element(S, v):
-    """generic element of a per-frequency vector: (value at index _i0) for an array filled in a loop, a comprehension, or an elementwise formula"""
+    """generic element of a per-frequency vector: (value at index _i0) for an array filled in a loop, a comprehension, or an elementwise formula;
+    for a vector written as one row-wise sum over whole arrays: ("rows", summand)"""
     v = S.deref(v)
     s = sym_of(v)
     if s is not None and S.cells(s):
@@ -1022,7 +1283,90 @@ def _element(S, v):
     u = app(v, "comp")
     if u is not None:
         return u[1][0], None
+    r = _rowsum(v)
+    if r is not None:
+        return ("rows", r), None
     return None, None
+
+
+def _unsum(el):
+    """sum(a * b) over two rows is their dot product, which the evaluator writes as the product a * b"""
+    u = app(el, "call:np.sum") if el is not None and not isinstance(el, tuple) else None
+    if u is not None and len(u[1]) == 1 and not isinstance(u[1][0], str):
+        return u[1][0]
+    return el
+
+
+def _extreme_kind(P, D):
+    """what P is as a statistic of the vector D:  'maxabs' (max|D| in one of its spellings: max(abs(D)), max(max(D), -min(D)), max(maximum(D, -D)),
+    norm(D, inf)), 'other' (recognisably a different reduction of D or of |D|: max without abs, min, mean, ...), None (not recognised)"""
+    if P is None or D is None or is_unknown(P) or isinstance(P, (tuple, str)):
+        return None
+    try:
+        aD = F.fn("abs", need(D))
+        mx, mn = F.fn("call:np.max", need(D)), F.fn("call:np.min", need(D))
+    except Unsupported:
+        return None
+    if same(P, F.fn("call:np.max", aD)) or same(P, F.fn("abs", F.fn("call:np.max", aD))):
+        return "maxabs"
+    u = app(P)
+    if u is None:
+        return None
+    two = [a for a in u[1] if not isinstance(a, str)]
+    if u[0] in ("call:max", "call:np.maximum", "call:np.fmax") and len(two) == 2 and len(u[1]) == 2:
+        if (same(two[0], mx) and same(two[1], -mn)) or (same(two[1], mx) and same(two[0], -mn)):
+            return "maxabs"
+        ks = {_extreme_kind(two[0], D), _extreme_kind(two[1], D)}
+        if ks == {"maxabs"}:
+            return "maxabs"
+        if None not in ks and "maxabs" not in ks:
+            return "other"              # the larger of two statistics neither of which is max|D| (max(D.max(), D.min()) is D.max())
+    if u[0] == "call:np.max" and len(u[1]) == 1:
+        w = app(two[0]) if two else None
+        if w is not None and w[0] in ("call:np.maximum", "call:np.fmax") and len(w[1]) == 2 and not any(isinstance(a, str) for a in w[1]):
+            if (same(w[1][0], D) and same(w[1][1], -need(D))) or (same(w[1][1], D) and same(w[1][0], -need(D))):
+                return "maxabs"
+    if u[0] in ("call:np.linalg.norm", "call:linalg.norm", "call:norm") and two and same(two[0], D):
+        pos, kw = call_args(u)
+        o = pos[1] if len(pos) > 1 else kw.get("ord")
+        if o is not None and sym_of(o) in ("np.inf", "inf", "math.inf", "numpy.inf"):
+            return "maxabs"
+        return "other" if o is None or const_of(o) is not None else None
+    if u[0] in REDUCERS and len(u[1]) == 1 and two and (same(two[0], D) or same(two[0], aD)):
+        return "other"
+    return None
+
+
+REDUCERS = ("call:np.sum", "call:np.max", "call:np.min", "call:np.mean", "call:np.prod", "call:np.median", "call:np.count_nonzero", "call:len", "call:np.std",
+            "call:np.var", "call:np.any", "call:np.all", "call:np.nansum", "call:np.cumsum", "call:np.argmax", "call:np.argmin", "call:np.ptp")
+
+
+def _cycle_col(v):
+    """(cycle table value, column name) when v is a column of a cycle table written as  T["amp"]  (the evaluator writes T[:, 0], T.amp,
+    T.loc[:, "amp"], T.iloc[:, 0], .values / .to_numpy() of those the same way)"""
+    u = app(v, "idx") if v is not None and not is_unknown(v) and not isinstance(v, (tuple, str)) else None
+    if u is None or len(u[1]) != 2 or isinstance(u[1][0], str) or isinstance(u[1][1], str):
+        return None
+    sp = str_parts(u[1][1])
+    if sp is None or len(sp) != 1 or sp[0] not in ("amp", "mean", "count"):
+        return None
+    return u[1][0], sp[0]
+
+
+def _masked_reduction(val):
+    """(reducer name, reduced column, mask) for  red(col[mask])  /  red(np.where(mask, col, 0))  /  col[mask].red(); None otherwise"""
+    sm = app(val)
+    if sm is None or sm[0] not in REDUCERS or not sm[1] or isinstance(sm[1][0], str):
+        return None
+    if len([a for a in sm[1] if isinstance(a, str) or not (app(a) or ("",))[0].startswith("kw:")]) != 1:
+        return None
+    x = app(sm[1][0], "idx")
+    if x is not None and len(x[1]) == 2 and not isinstance(x[1][0], str) and not isinstance(x[1][1], str) and (apps(x[1][1], "cmp:") or apps(x[1][1], "call:np.")):
+        return sm[0], x[1][0], x[1][1]
+    w = app(sm[1][0], "call:np.where")
+    if w is not None and len(w[1]) == 3 and not any(isinstance(a, str) for a in w[1]) and const_of(w[1][2]) == 0:
+        return sm[0], w[1][1], w[1][0]
+    return None
 
 
 def _cumcount(ctx, S, q, fn, roles=None, nbins=None):
@@ -1037,29 +1381,40 @@ def _cumcount(ctx, S, q, fn, roles=None, nbins=None):
         if u is not None:
             val, dom = u[1][0], u[1][1]
             ix = ix + [F.sym(f"_i{len(c[4]['loops'])}")]
-        sm = app(val)
-        if sm is None or not sm[0].startswith("call:") or len(sm[1]) != 1 or isinstance(sm[1][0], str) or len(ix) != 2:
+        mr = _masked_reduction(val)
+        if mr is None or len(ix) != 2:
             continue
-        x = app(sm[1][0], "idx")
-        m = app(x[1][1]) if x is not None and not isinstance(x[1][1], str) else None
-        if m is None or not m[0].startswith("cmp:") or len(m[1]) != 2:
-            continue
-        found.append((c, ix, dom, x[1][0], x[1][1], m, sm[0]))
+        found.append((c, ix, dom, mr[1], mr[2], mr[0]))
     msg = f"{q}: Count[j, jj] = number of cycles with amplitude >= level jj (non-increasing in the level; level 0 = 0 counts every cycle)"
     if len(found) != 1:
-        ctx.error(msg, fn, f"{len(found)} stores of a masked sum of cycle counts")
+        ctx.error(msg, fn, f"{len(found)} stores of a masked reduction of cycle counts")
         return None
-    c, (J, K), dom, ccol, mask, m, red = found[0]
+    c, (J, K), dom, ccol, mask, red = found[0]
     if red != "call:np.sum":
         ctx.fail(msg, c[3], {"the masked cycle counts are reduced with": red[5:], "expected": "their sum"})
         return None
-    lev = amp = None
-    for a, b in ((m[1][0], m[1][1]), (m[1][1], m[1][0])):
-        r, ixs = peel(a)
-        if sym_of(r) is not None and len(ixs) == 2 and same(ixs[0], J) and same(ixs[1], K):
-            lev, amp, LV = a, b, sym_of(r)
-    if lev is None:
-        ctx.fail(msg, c[3], {"mask": short(mask), "store index": [short(J), short(K)]})
+    # what the mask compares: one entry of the level array at the store's own (row, bin) position, and one column of a cycle table
+    lev = amp = LV = None
+    levels, columns = [], []
+    for x in walk(mask):
+        r, ixs = peel(x)
+        if sym_of(r) is not None and len(ixs) == 2 and (sym_of(r) in S.tr.inits or any(cc[0] == sym_of(r) for cc in S.tr.cells)):
+            if not any(same(x, y) for y in levels):
+                levels.append(x)
+        if _cycle_col(x) is not None and not any(same(x, y) for y in columns):
+            columns.append(x)
+    if len(levels) != 1 or len(columns) != 1:
+        ctx.error(msg, c[3], {"mask": short(mask), "why": f"the mask reads {len(levels)} entries of level arrays and {len(columns)} cycle-table columns"})
+        return None
+    lev, amp = levels[0], columns[0]
+    r, ixs = peel(lev)
+    LV = sym_of(r)
+    cc = _cycle_col(ccol)
+    if cc is None:
+        ctx.error(msg, c[3], {"what is summed is not a column of a cycle table": short(ccol, 160)})
+        return None
+    if not (same(ixs[0], J) and same(ixs[1], K)):
+        ctx.fail(msg, c[3], {"mask": short(mask), "store index": [short(J), short(K)], "level read at": [short(i) for i in ixs]})
         return None
     tt = []
     for d_ in (-1, 0, 1):
@@ -1071,18 +1426,17 @@ def _cumcount(ctx, S, q, fn, roles=None, nbins=None):
             tt.append(None)
             continue
         tt.append(truth(mask, f))
-    ua, uc = app(amp, "idx"), app(ccol, "idx")
-    ok = tt == [False, True, True] and ua is not None and uc is not None and same(ua[1][0], uc[1][0]) and sym_of(ua[1][1]) == "'amp'" and sym_of(uc[1][1]) == "'count'"
     if None in tt:
         ctx.error(msg, c[3], short(mask))
         return None
+    ok = tt == [False, True, True] and same(_cycle_col(amp)[0], cc[0]) and _cycle_col(amp)[1] == "amp" and cc[1] == "count"
     if roles is not None:
         ok = ok and c[0] == roles.get("count") and LV == roles.get("binamps")
     ctx.check(ok, msg, c[3], None if ok else {"mask": short(mask), "cycles with amplitude below / on / above the level are counted": tt, "counts": short(ccol, 120),
-                                              "stored into": c[0], "levels": LV})
+                                              "compared column": _cycle_col(amp)[1], "summed column": cc[1], "stored into": c[0], "levels": LV})
     if not ok:
         return None
-    RF = ua[1][0]
+    RF = cc[0]
     r = app(RF)
     R = None
     if r is not None and r[0] in ("call:cyclecount.rainflow", "call:rainflow"):
@@ -1143,6 +1497,9 @@ def _columns(v, cols, more=None, primary=None):
             # one index on the (frequency x bin) array selects rows; X[a:b, :] is written X[a:b] by the evaluator
             raise _Mismatch(f"{short(av)} slices the frequencies (rows), not the bins (columns)")
         sl = app(ix[0], "slice")
+        lst = app(ix[0], "tuple")
+        if sl is None and two and lst is not None and len(lst[1]) == 1 and not isinstance(lst[1][0], str):
+            ix = [lst[1][0]]                                              # X[:, [k]] is the one-column block X[:, k:k+1]
         if sl is None and two and const_of(ix[0]) is not None and const_of(ix[0]).denominator == 1 and -n <= const_of(ix[0]) < n:
             k0 = int(const_of(ix[0])) % n
             sl = ("slice", [F.const(k0), F.const(k0 + 1), NONE])          # X[:, k] as the one-column block X[:, k:k+1]
@@ -1211,7 +1568,9 @@ def r3_telescoping(ctx):
     S, out, fn = _fde(ctx, True)
     CT = sym_of(_strip(S, out.get("count")))
     BA = sym_of(_strip(S, out.get("binamps")))
-    Z = _strip(S, out.get("bincount"))
+    Z = untuple(_strip(S, out.get("bincount")))
+    if isinstance(Z, tuple) and Z and not any(is_unknown(x) or isinstance(x, tuple) for x in Z):
+        Z = F.fn("hcat", *[need(x) for x in Z])          # np.column_stack((blocks..., column)): the pieces side by side
     hc = app(Z, "hcat")
     C = [F.sym(f"c{i}") for i in range(5)]
     vec = []
@@ -1301,35 +1660,60 @@ def r3_telescoping(ctx):
         LV = inf["levels"]
         sc = [c for c in S_.cells(LV) if same(c[1], inf["J"])]
         ok = len(sc) == 1 and len(S_.cells(LV)) == 1
+        unread = None
         if ok:
             try:
-                fac = need(sc[0][2]) / S_.ev.mk_idx(F.sym(LV), inf["J"])
-                ok = same(S_.load(fac), S_.E("np.max(A)", A=inf["amp"]))
-            except Unsupported:
-                ok = False
+                fac = S_.load(need(sc[0][2]) / S_.ev.mk_idx(F.sym(LV), inf["J"]))
+                ok = same(fac, S_.E("np.max(A)", A=inf["amp"]))
+                if not ok and not (not is_unknown(fac) and not isinstance(fac, tuple) and (head(fac) in REDUCERS or const_of(fac) is not None or apps(fac, "call:signal.lfilter"))):
+                    unread = f"the factor the row of levels is scaled by is not read: {short(fac, 200)}"        # neither max(amp) nor recognisably something else
+            except Unsupported as e:
+                ok, unread = False, str(e)
+        elif S_.cells(LV):
+            unread = f"the stores into the level array are not one scaling of the row being counted: {[(short(c[1], 40), short(c[2], 80)) for c in S_.cells(LV)][:3]}"
         if q == "fdepsd":
             ini = S_.deref(S_.init(LV))
             t = app(ini, "tile")
             if t is not None:
                 ini = t[1][0]
-            ok = ok and (same(ini, S_.E("np.arange(nbins, dtype=float) / nbins")) or same(ini, S_.E("np.arange(nbins) / nbins")))
-            ok = ok and _levels_shape(S_, LV)
+            frac_ok = same(ini, S_.E("np.arange(nbins) / nbins"))
+            if not frac_ok and unread is None and (ini is None or is_unknown(ini) or isinstance(ini, tuple) or
+                                                   any(nm != "call:np.arange" and not nm.startswith("call:kw") for nm, _, _ in apps(ini, "call:"))):
+                unread = f"the unit levels are made by something else than np.arange: {short(ini, 160)}"
+            ok = ok and frac_ok
+            shp = _levels_shape(S_, LV)
+            if shp is None:
+                # no allocation with a visible (rows, columns) shape: numpy's broadcasting and pandas' index=freq raise on a mismatch, so a wrong
+                # shape cannot give silently wrong outputs - the shape is demanded only where the allocation shows it
+                ctx.note("fdepsd: the shape of the level array is not visible in an allocation; not demanded")
+            ok = ok and shp is not False
             dom_ok = any(same(inf["dom"], w) for w in (S_.E("nbins"), S_.E("len(L)", L=S_.ev.mk_idx(F.sym(LV), inf["J"])), S_.E("L.shape[1]", L=F.sym(LV))))
-            ctx.check(ok and dom_ok, "fdepsd: amplitude levels are k/nbins of the largest cycle amplitude, k = 0..nbins-1 (first level 0)", f_,
-                      None if ok and dom_ok else {"levels created from": short(S_.init(LV)), "scaled by": [short(c[2]) for c in sc], "levels counted": short(inf["dom"])})
+            if unread is not None and dom_ok:
+                ctx.error("fdepsd: amplitude levels are k/nbins of the largest cycle amplitude, k = 0..nbins-1 (first level 0)", f_, unread)
+            else:
+                ctx.check(ok and dom_ok, "fdepsd: amplitude levels are k/nbins of the largest cycle amplitude, k = 0..nbins-1 (first level 0)", f_,
+                          None if ok and dom_ok else {"levels created from": short(S_.init(LV)), "scaled by": [short(c[2]) for c in sc], "levels counted": short(inf["dom"])})
             R = inf["R"]
             SR = sym_of(_strip(S_, out.get("srs")))
             sr = [c for c in S_.cells(SR)] if SR else []
-            ok = R is not None and len(sr) == 1 and same(sr[0][1], inf["J"]) and same(sr[0][2], S_.E("np.max(abs(R))", R=R))
-            ctx.check(ok, "fdepsd: cycles are counted on the reversals of the same response history whose absolute maximum is the SRS value", f_,
-                      None if ok else {"response": short(R), "srs": [short(c[2]) for c in sr]})
+            msg = "fdepsd: cycles are counted on the reversals of the same response history whose absolute maximum is the SRS value"
+            kind = _extreme_kind(sr[0][2], R) if R is not None and len(sr) == 1 and same(sr[0][1], inf["J"]) else None
+            if kind is None and R is not None and len(sr) == 1 and same(sr[0][1], inf["J"]) and not is_unknown(sr[0][2]) and not isinstance(sr[0][2], tuple) \
+                    and not any(same(x, R) for x in walk(sr[0][2])) and apps(sr[0][2], "call:signal.lfilter"):
+                kind = "other"          # a peak taken from another response history than the one the cycles are counted on
+            if kind is None:
+                ctx.error(msg, f_, {"response": short(R), "srs": [short(c[2]) for c in sr], "why": "the SRS value is not recognised as a statistic of the response history"})
+            else:
+                ctx.check(kind == "maxabs", msg, f_, None if kind == "maxabs" else {"response": short(R), "srs": [short(c[2]) for c in sr]})
+        elif unread is not None:
+            ctx.error("_dofde: the amplitude levels of the row are scaled by the largest cycle amplitude before counting", f_, unread)
         else:
             ctx.check(ok, "_dofde: the amplitude levels of the row are scaled by the largest cycle amplitude before counting", f_, None if ok else [short(c[2]) for c in sc])
 
 
 def _levels_shape(S, LV):
     """the array of levels has one row per frequency and one column per bin: created as zeros((len(freq), nbins)) (+ the fractions) or by
-    tiling the fractions len(freq) times"""
+    tiling the fractions len(freq) times.  True / False when an allocation shows the shape, None when none does"""
     seen = set()
     names = [LV]
     while names:
@@ -1346,12 +1730,12 @@ def _levels_shape(S, LV):
                 if al[0] == "np.tile":
                     return rows and const_of(shp[1]) == 1
                 return rows and same(shp[1], S.E("nbins"))
-            return False
+            return None
         ini = S.init(nm)
         if ini is None or is_unknown(ini) or isinstance(ini, tuple):
-            return False
+            return None
         names += [sym_of(x) for x in walk(ini) if sym_of(x) in S.tr.inits]
-    return False
+    return None
 
 
 def _local_callables(S, v):
@@ -1363,6 +1747,25 @@ def _local_callables(S, v):
         if q.isidentifier() and q in S.ev.locals_ and q not in out:
             out.append(q)
     return out
+
+
+def _transcendentals(v):
+    out = set()
+    for x in walk(v):
+        a = single_atom(x)
+        if a is None:
+            continue
+        d = F.atom_desc(a)
+        if d[0] in ("exp", "sin", "cos") or (d[0] == "fn" and d[1] in ("log", "call:np.log10", "call:np.log2", "call:np.log1p", "call:np.expm1", "call:np.exp2", "call:math.log")):
+            out.add(a)
+    return out
+
+
+def _decisive(*vals):
+    """two values that differ as polynomials over their atoms are provably different only if the atoms are independent: logarithms and
+    exponentials of different arguments (log(f T) against log(f) + log(T)) are not - such a difference is not a verdict"""
+    sets = [_transcendentals(v) for v in vals if v is not None and not is_unknown(v) and not isinstance(v, (tuple, str))]
+    return all(s_ == sets[0] for s_ in sets[1:]) if sets else False
 
 
 # ======================================================================================================================= R1
@@ -1379,22 +1782,44 @@ def r1_exponents(ctx):
         Z = _strip(S, out.get("bincount"))
         gl, bl = ["G1", "G2", "G4", "G8", "G12"], ["b=4", "b=8", "b=12"]
         if absacce:
-            ok = psd is not None and peak is not None and sorted(psd) == sorted(gl) == sorted(peak)
-            ctx.check(ok, "fdepsd: the PSD table columns G1, G2, G4, G8, G12 are taken from the locals of those names", fn, None if ok else short(out.get("psd")))
-            ok = dis is not None and sorted(dis) == sorted(bl)
-            ctx.check(ok, "fdepsd: di_sig columns b=4, b=8, b=12 hold Df4, Df8, Df12 in that order", fn, None if ok else short(out.get("di_sig")))
-            ok = dit is not None and vt is not None and sorted(dit) == sorted(bl) == sorted(vt)
-            ctx.check(ok, "fdepsd: di_test and var_test columns are ordered b=4, b=8, b=12 as well", fn)
+            # a table this rule cannot read (labels that are not literals, data that is not a dict / a tuple of columns) is not a verdict
+            for nm_, tb, msg_ in (("psd / peakamp", None if psd is None or peak is None else 1, "fdepsd: the PSD table columns G1, G2, G4, G8, G12 are taken from the locals of those names"),
+                                  ("di_sig", dis, "fdepsd: di_sig columns b=4, b=8, b=12 hold Df4, Df8, Df12 in that order"),
+                                  ("di_test / var_test", None if dit is None or vt is None else 1, "fdepsd: di_test and var_test columns are ordered b=4, b=8, b=12 as well")):
+                if tb is None:
+                    ctx.error(msg_, fn, f"the {nm_} table is not pd.DataFrame(<dict or columns>, columns=[literal labels]): " +
+                              short(out.get("psd" if nm_.startswith("psd") else ("di_sig" if nm_ == "di_sig" else "di_test")), 200))
+            if psd is not None and peak is not None:
+                ok = sorted(psd) == sorted(gl) == sorted(peak)
+                ctx.check(ok, "fdepsd: the PSD table columns G1, G2, G4, G8, G12 are taken from the locals of those names", fn, None if ok else short(out.get("psd")))
+            if dis is not None:
+                ok = sorted(dis) == sorted(bl)
+                ctx.check(ok, "fdepsd: di_sig columns b=4, b=8, b=12 hold Df4, Df8, Df12 in that order", fn, None if ok else short(out.get("di_sig")))
+            if dit is not None and vt is not None:
+                ok = sorted(dit) == sorted(bl) == sorted(vt)
+                ctx.check(ok, "fdepsd: di_test and var_test columns are ordered b=4, b=8, b=12 as well", fn)
             exps = []
             for b in (4, 8, 12):
                 el, cell = _element(S, dis.get(f"b={b}")) if dis else (None, None)
+                if cell is None and el is None and dis and sym_of(S.deref(dis.get(f"b={b}"))) is not None:
+                    # the column is an array that is filled by one whole-array store (Df4[:] = ..., np.sum(..., out=Df4))
+                    cs = S.cells(sym_of(S.deref(dis.get(f"b={b}"))))
+                    if len(cs) == 1 and not cs[0][4]["loops"] and not cs[0][4]["guard"] and not is_unknown(cs[0][1]) and _is_full(cs[0][1]) and not cs[0][4]["aug"]:
+                        r = _rowsum(cs[0][2]) if not is_unknown(cs[0][2]) and not isinstance(cs[0][2], tuple) else None
+                        el, cell = (("rows", r), cs[0]) if r is not None else (None, None)
                 want = None
-                if el is not None and sym_of(BA) is not None and Z is not None:
+                if isinstance(el, tuple) and el and el[0] == "rows":
+                    el = el[1]
+                    if sym_of(BA) is not None and Z is not None and not isinstance(Z, tuple):
+                        want = E(f"(A ** {b}) * Z", A=BA, Z=Z)           # whole arrays, summed along each row
+                elif el is not None and not is_unknown(el) and sym_of(BA) is not None and Z is not None and not isinstance(Z, tuple):
+                    el = _unsum(el)
                     want = E(f"(A[_i0] ** {b}) * Z[_i0]", A=BA, Z=Z)
-                ok = el is not None and same(el, want)
-                if el is None or want is None:
+                ok = el is not None and (same(el, want) or same(S.deref(el), S.deref(want)))
+                if el is None or want is None or is_unknown(el):
                     exps.append(None)
-                    ctx.error(f"fdepsd: damage indicator Df{b} = sum(amplitude^{b} * non-cumulative count)", fn, "the column is not filled element by element from binamps / bincount")
+                    ctx.error(f"fdepsd: damage indicator Df{b} = sum(amplitude^{b} * non-cumulative count)", fn,
+                              "the column is not filled element by element from binamps / bincount" if not is_unknown(el) else repr(el))
                     continue
                 loc = _local_callables(S, el)
                 if not ok and loc:
@@ -1419,37 +1844,52 @@ def r1_exponents(ctx):
             except Unsupported as e:
                 ctx.error(f"fdepsd [{label}]: sig2_{b}", fn, str(e))
                 continue
+            if not ok and not _decisive(lhs, need(Df)):
+                ctx.error(f"fdepsd [{label}]: the test variance for b={b} is (Df{b}/Dt{b})^(2/{b})", fn, {"not comparable (logarithms / exponentials of different arguments)": short(s2)})
+                continue
             ctx.check(ok, f"fdepsd [{label}]: the test variance for b={b} is (Df{b}/Dt{b})^(2/{b})", fn, None if ok else short(s2))
         # Miles:  peak^2 = 2 ln(N0) sigma^2,  sigma^2 = G * M
         M = E("np.pi / 2 * freq * Q") if absacce else E("Q / (8 * np.pi * freq)")
         K = 2 * E("np.log(freq * T0)") * M
         AM = _strip(S, peak["G1"])
         am = S.cells(sym_of(AM)) if sym_of(AM) else []
-        info_amp = None
-        for c in S.cells():
-            u = app(c[2], "call:np.max") if not is_unknown(c[2]) and not isinstance(c[2], tuple) else None
-            if u is not None and len(u[1]) == 1:
-                x = app(u[1][0], "idx")
-                if x is not None and sym_of(x[1][1]) == "'amp'":
-                    info_amp = c
+        # the G1 peak amplitude: the largest amplitude of the cycle table (max of its 'amp' column); a recognisably different statistic or column
+        # is wrong, anything else is not read
+        peak_kind = None
+        if len(am) == 1 and not is_unknown(am[0][2]) and not isinstance(am[0][2], tuple):
+            u = app(am[0][2])
+            col = _cycle_col(u[1][0]) if u is not None and u[0] in REDUCERS and len(u[1]) == 1 and not isinstance(u[1][0], str) else None
+            if col is not None:
+                peak_kind = "ok" if (u[0] == "call:np.max" and col[1] == "amp") else "other"
+        g1msg = ("fdepsd [absacce]: G1 = Amax^2/(2 ln(N0) M) with Miles' M = (pi/2) f Q - the same M as srs.vrs's z_miles^2/PSD (N0 = f T0), Amax the largest cycle amplitude"
+                 if absacce else
+                 "fdepsd [pvelo]: G1 = Amax^2/(2 ln(N0) M) with M = Q/(8 pi f) (Miles' relation for pseudo velocity; N0 = f T0), Amax the largest cycle amplitude")
         try:
-            ok = len(am) == 1 and info_amp is not None and am[0] is not None and am[0][0] == info_amp[0] and (need(AM) ** 2).equals(need(psd["G1"]) * K)
+            alg = (need(AM) ** 2).equals(need(psd["G1"]) * K)
+            dec = alg or _decisive(need(AM) ** 2, need(psd["G1"]) * K)
         except Unsupported:
-            ok = False
-        if absacce:
-            ctx.check(ok, "fdepsd [absacce]: G1 = Amax^2/(2 ln(N0) M) with Miles' M = (pi/2) f Q - the same M as srs.vrs's z_miles^2/PSD (N0 = f T0), Amax the largest cycle amplitude",
-                      fn, None if ok else {"G1": short(psd["G1"]), "peak": short(AM)})
+            alg, dec = False, False
+        if peak_kind is None or not dec:
+            ctx.error(g1msg, fn, {"G1": short(psd["G1"]), "peak": short(AM), "peak filled with": [short(c[2], 160) for c in am][:2],
+                                  "why": "the peak amplitude is not read as a statistic of the cycle table" if peak_kind is None else "logarithms of different arguments"})
         else:
-            ctx.check(ok, "fdepsd [pvelo]: G1 = Amax^2/(2 ln(N0) M) with M = Q/(8 pi f) (Miles' relation for pseudo velocity; N0 = f T0), Amax the largest cycle amplitude",
-                      fn, None if ok else {"G1": short(psd["G1"]), "peak": short(AM)})
+            ok = peak_kind == "ok" and alg
+            ctx.check(ok, g1msg, fn, None if ok else {"G1": short(psd["G1"]), "peak": short(AM), "peak filled with": [short(c[2], 160) for c in am][:2]})
+        dec = True
         try:
             p2 = S.deref(peak["G2"])
             ok = (need(p2) ** 2).equals(need(psd["G2"]) * K)
+            dec = ok or _decisive(need(p2) ** 2, need(psd["G2"]) * K)
             g2 = sym_of(need(p2) ** 2)
+            if ok and g2 is None:
+                dec = False          # the squared G2 peak is not one array this rule can follow to its creation
             ok = ok and g2 is not None and same(S.init(g2), need(AM) ** 2)
         except Unsupported:
             ok = False
-        ctx.check(ok, f"fdepsd [{label}]: G2 uses the same factor as G1 (G2/G2max == G1/Amax^2), and G2max starts at Amax^2", fn, None if ok else short(psd["G2"]))
+        if not dec:
+            ctx.error(f"fdepsd [{label}]: G2 uses the same factor as G1 (G2/G2max == G1/Amax^2), and G2max starts at Amax^2", fn, short(psd["G2"]))
+        else:
+            ctx.check(ok, f"fdepsd [{label}]: G2 uses the same factor as G1 (G2/G2max == G1/Amax^2), and G2max starts at Amax^2", fn, None if ok else short(psd["G2"]))
         oks = []
         for b in (8, 12):
             try:
@@ -1458,12 +1898,17 @@ def r1_exponents(ctx):
                 oks.append(False)
         ctx.check(all(oks), f"fdepsd [{label}]: G4, G8, G12 are obtained from their variances with one and the same factor", fn, None if all(oks) else oks)
         for b in (4, 8, 12):
+            dec = True
             try:
                 g = need(S.deref(peak[f"G{b}"]))
                 ok = (g * g).equals(need(psd[f"G{b}"]) * K)
+                dec = ok or _decisive(g * g, need(psd[f"G{b}"]) * K)
             except Unsupported:
                 ok = False
-            ctx.check(ok, f"fdepsd [{label}]: Gmax^2 = G{b} * M * 2 ln(N0) with the arm's own M (Miles consistency)", fn, None if ok else short(peak[f"G{b}"]))
+            if not dec:
+                ctx.error(f"fdepsd [{label}]: Gmax^2 = G{b} * M * 2 ln(N0) with the arm's own M (Miles consistency)", fn, short(peak[f"G{b}"]))
+            else:
+                ctx.check(ok, f"fdepsd [{label}]: Gmax^2 = G{b} * M * 2 ln(N0) with the arm's own M (Miles consistency)", fn, None if ok else short(peak[f"G{b}"]))
     vm = ctx.src.func(SRS, "vrs")
     Sv0 = XSem(ctx, vm, run=False, consts={})
     Sv = XSem(ctx, vm, facts=Facts(truths=[(Sv0.E("getmiles"), True), (Sv0.E("getresp"), False)]), consts={})
@@ -1481,7 +1926,12 @@ def r1_exponents(ctx):
             except Unsupported:
                 good.append(False)
         ok = bool(good) and all(good)
-    ctx.check(ok, "srs.vrs: z_miles^2 = (pi/2) f Q PSD (the reference the absacce arm is compared with)", vm, nontrivial=False)
+        if not roots:
+            rv = None
+    if not (isinstance(rv, tuple) and len(rv) == 2):
+        ctx.error("srs.vrs: z_miles^2 = (pi/2) f Q PSD (the reference the absacce arm is compared with)", vm, "the Miles estimate returned by vrs(getmiles=True) is not read as a square root")
+    else:
+        ctx.check(ok, "srs.vrs: z_miles^2 = (pi/2) f Q PSD (the reference the absacce arm is compared with)", vm, nontrivial=False)
 
 
 # ======================================================================================================================= R7
@@ -1523,10 +1973,21 @@ def r7_amplitude_scaling(ctx):
     consts = module_consts(ctx, FDE)
     table = module_funcs(ctx, FDE)
     Sd = XSem(ctx, fd, consts=consts, inline={k: v for k, v in table.items() if k not in ("fdepsd", "_dofde", "_mk_par_globals")})
-    Dd = Degrees(Sd, {"SIG_": 1}, tables={"call:cyclecount.rainflow", "call:rainflow"})
+    # the signal of the worker: the module-level array handed to the filter (whatever the global is called)
+    roots = {}
+    for c in Sd.calls("signal.lfilter", "lfilter", "scipy.signal.lfilter"):
+        x = placed(c, ["b", "a", "x"]).get("x")
+        if sym_of(x) is not None and sym_of(x) not in Sd.ev.locals_:
+            roots[sym_of(x)] = 1
+    if not roots:
+        roots = {"SIG_": 1}
+    Dd = Degrees(Sd, roots, tables={"call:cyclecount.rainflow", "call:rainflow"})
     n += _homogeneous_tests(ctx, Sd, Dd, "_dofde", fd)
     _bound(ctx, Sd, "_dofde", fd)
-    ctx.check(n >= 4, f"scale-invariance rule bound to {n} amplitude comparisons in fdepsd and _dofde", FDE + ":1", nontrivial=False)
+    if n >= 4:
+        ctx.ok(f"scale-invariance rule bound to {n} amplitude comparisons in fdepsd and _dofde", FDE + ":1", nontrivial=False)
+    else:
+        ctx.error(f"scale-invariance rule bound to {n} amplitude comparisons in fdepsd and _dofde (4 expected: the rule does not see the comparisons it is about)", FDE + ":1")
 
 
 def _homogeneous_tests(ctx, S, D, q, fn):
